@@ -220,6 +220,10 @@ func (c *Ctx) accessPath(v ssa.Value, depth int) string {
 			}
 		}
 		if cc.IsInvoke() && len(cc.Args) == 0 {
+			// a typed-node accessor reached through a (narrow) interface names the same member as the direct call
+			if strings.HasPrefix(cc.Method.Name(), "Field") && len(cc.Method.Name()) > 5 {
+				return c.accessPath(cc.Value, depth+1) + "." + strings.TrimPrefix(cc.Method.Name(), "Field")
+			}
 			return c.accessPath(cc.Value, depth+1) + "." + cc.Method.Name() + "()"
 		}
 		return "val@" + v.Name()
@@ -1009,7 +1013,34 @@ func (d *discharger) dischargeMakeSlice(s panicSite) (bool, string) {
 			return sizeOK(bo.Y, depth+1)
 		}
 		if phi, ok := v.(*ssa.Phi); ok {
+			// the clamp idiom: n := x.Length(); if n < 0 { n = 0 } — a list length with the "not a list" -1 replaced
+			hasZero := false
 			for _, e := range phi.Edges {
+				if k, isK := core.ConstInt(e); isK && k == 0 {
+					hasZero = true
+				}
+			}
+			for _, e := range phi.Edges {
+				if call, isCall := core.Unconv(e).(*ssa.Call); isCall && hasZero {
+					if name, _ := methodCall(call); name == "Length" {
+						// taken on the edge where the sign test failed
+						if core.GuardedBy(phi.Block().Preds[edgeIndex(phi, e)], func(cond ssa.Value) (bool, bool) {
+							x, onT, onF, ok := core.SignTest(cond)
+							if !ok || core.Unconv(x) != ssa.Value(call) {
+								return false, false
+							}
+							if onT == "nonneg" {
+								return true, true
+							}
+							if onF == "nonneg" {
+								return false, true
+							}
+							return false, false
+						}) || phiEdgeIsFalseOfNegTest(phi, e, call) {
+							continue
+						}
+					}
+				}
 				if ok1, w1 := sizeOK(e, depth+1); !ok1 {
 					return false, w1
 				}
@@ -1062,4 +1093,34 @@ func (d *discharger) dischargeMakeSlice(s panicSite) (bool, string) {
 		}
 	}
 	return true, "every run-time size is a length of existing data, a constant, or range-checked on both sides"
+}
+
+func edgeIndex(phi *ssa.Phi, e ssa.Value) int {
+	for i, x := range phi.Edges {
+		if x == e {
+			return i
+		}
+	}
+	return 0
+}
+
+// phiEdgeIsFalseOfNegTest: the edge carrying value e into phi comes straight from the block that tested `e < 0` and took
+// the false branch (if n < 0 { n = 0 } with no else).
+func phiEdgeIsFalseOfNegTest(phi *ssa.Phi, e ssa.Value, call *ssa.Call) bool {
+	pred := phi.Block().Preds[edgeIndex(phi, e)]
+	iff := core.BlockIf(pred)
+	if iff == nil || len(pred.Succs) != 2 {
+		return false
+	}
+	x, onT, onF, ok := core.SignTest(iff.Cond)
+	if !ok || core.Unconv(x) != ssa.Value(call) {
+		return false
+	}
+	if onT == "neg" && pred.Succs[1] == phi.Block() {
+		return true
+	}
+	if onF == "neg" && pred.Succs[0] == phi.Block() {
+		return true
+	}
+	return false
 }
